@@ -3,6 +3,7 @@ one Gallina model (coq/Model/Merge.v), one harness command (harness/cmd/c08), on
 import os
 
 import common as C
+import optsdom
 
 TRUSTED = [
     "merge-table analysis of the translator (syntactic: fields compared by BatchHeader.Equal, fields copied into the NewBatch literals of convertToFiles, constants and comparison operators of the limit tests)",
@@ -83,11 +84,14 @@ def run(ctx, prop, props, obligs):
     correspondence(ctx, ctx.scale(800, 5000), ctx.scale(80, 0))
     summ = oracle(ctx, prop, ctx.scale(800, 5000), ctx.scale(30, 0))
     ctx.add_summary(summ, "MergeFilesWith oracle (%s)" % prop)
+    optsdom.run(ctx, prop)
     if ctx.tier == "thorough":
         ctx.cov["forbidden_vernacular"] = C.forbidden_vernacular()
 
 
 def replay(prop, path):
+    if optsdom.is_case(path):
+        return optsdom.replay(path)
     ok, out = C.build_harness()
     if not ok:
         print(out[-2000:])
